@@ -45,6 +45,10 @@ impl MemTable {
             }
         }
         self.tombstoned_edges.insert(key);
+        // Properties written earlier in this transaction belonged to the relationship that is
+        // being deleted; a relationship re-created afterwards starts without them.
+        self.edge_properties.remove(&key);
+        self.removed_edge_properties.remove(&key);
     }
 
     pub fn set_node_property(&mut self, node: InternalNodeId, key: String, value: PropertyValue) {
